@@ -479,6 +479,9 @@ class VerifyAttrs(object):
         dim = attrs["dimension"]
         if dim:
             try:
+                # A value from the YAML attrs field may be an integer.
+                if isinstance(dim, int) and dim is not True:
+                    attrs["dimension"] = dim = str(dim)
                 declast.check_dimension(dim, metaattrs)
             except RuntimeError:
                 raise RuntimeError("Unable to parse dimension: {} at line {}"
